@@ -116,17 +116,23 @@ def parseBody : Bytes → Option (PubKey × Bytes)
 
 def be32 (n : Nat) : Bytes := [n / 16777216 % 256, n / 65536 % 256, n / 256 % 256, n % 256]
 
-/-- algorithm-specific part of `serializeWithoutHeaders` (the KDF field is always written with length 3) -/
-def serializeMat : KeyMat → Bytes
+/-- algorithm-specific part of `serializeWithoutHeaders`.  `keepExtra` (regenerated fact `Gen.pgpKdfKeepsExtra`): the
+    octets of the ECDH KDF field beyond the three defined ones are written back; without it the field is always
+    written with length 3 -/
+def serializeMatB (keepExtra : Bool) : KeyMat → Bytes
   | .rsa n e => writeMPI n ++ writeMPI e
   | .dsa p q g y => writeMPI p ++ writeMPI q ++ writeMPI g ++ writeMPI y
   | .elgamal p g y => writeMPI p ++ writeMPI g ++ writeMPI y
   | .ecdsa oid p => [oid.length] ++ oid ++ writeMPI p
-  | .ecdh oid p h a _ => [oid.length] ++ oid ++ writeMPI p ++ [3, 1, h, a]
+  | .ecdh oid p h a extra =>
+    [oid.length] ++ oid ++ writeMPI p ++ (if keepExtra then [3 + extra.length, 1, h, a] ++ extra else [3, 1, h, a])
   | .eddsa oid p => [oid.length] ++ oid ++ writeMPI p
 
+def serializeMat : KeyMat → Bytes := serializeMatB Gen.pgpKdfKeepsExtra
+
 /-- `serializeWithoutHeaders` -/
-def serializeBody (k : PubKey) : Bytes := [4] ++ be32 k.created ++ [k.algo] ++ serializeMat k.mat
+def serializeBodyB (keepExtra : Bool) (k : PubKey) : Bytes := [4] ++ be32 k.created ++ [k.algo] ++ serializeMatB keepExtra k.mat
+def serializeBody (k : PubKey) : Bytes := serializeBodyB Gen.pgpKdfKeepsExtra k
 
 /-- `SerializeSignaturePrefix`: 0x99 and the body length computed in uint16 arithmetic -/
 def sigPrefix (k : PubKey) : Bytes :=
